@@ -98,8 +98,9 @@ def Quantile.quantile (s : Quantile α) : α :=
     let desired_index := (len : α) * s.p - ((1:Nat):α)
     let index : Int := FloatOps.ceilInt desired_index
     if FloatOps.eqb desired_index (index : α) && decide (index ≥ 0) && decide (index.toNat < len - 1) then
-      ((1:Nat):α) / ((2:Nat):α) * heights.getD index.toNat nan
-        + ((1:Nat):α) / ((2:Nat):α) * heights.getD (index.toNat + 1) nan
+      let a := heights.getD index.toNat nan
+      let b := heights.getD (index.toNat + 1) nan
+      FloatOps.fmin (FloatOps.fmax (((1:Nat):α) / ((2:Nat):α) * a + ((1:Nat):α) / ((2:Nat):α) * b) a) b
     else
       let index := (max index 0).toNat
       let index := min index (len - 1)
